@@ -342,65 +342,77 @@ inductive Resp
   | txnResults (xs : List TxnRes)
 deriving DecidableEq, Repr
 
-/-- The filter. `none` = the Go code panics (nil `ServiceTopology`, nil `GatewayService`) or — for
-    the two compaction entry points — would not terminate (never happens: `compact_terminates`). -/
-def filterResp (a : Authz) : Resp → Option Resp
-  | .csns xs => some (.csns (filterCSNs a xs).1)
-  | .indexedCSNs xs _ => let (o, r) := filterCSNs a xs; some (.indexedCSNs o r)
-  | .pqExecute xs _ => let (o, r) := filterCSNs a xs; some (.pqExecute o r)
-  | .topology none _ _ => none
+def csnNil (c : CSN) : Bool := c.node.isNone || c.svc.isNone
+
+/-- Inputs on which the Go code panics, whatever the authorizer: a nil `ServiceTopology`; a nil
+    `GatewayService` in a service dump (`allowGateway` dereferences it); a CheckServiceNode with a nil
+    `Node` or `Service` (`CanRead` answers Deny, then the arguments of the "dropping …" debug log
+    dereference both). Every element of a slice is visited by the loops, so position is irrelevant. -/
+def Resp.panics : Resp → Bool
+  | .csns xs | .indexedCSNs xs _ | .pqExecute xs _ => xs.any csnNil
+  | .topology none _ _ => true
+  | .topology (some (u, d)) _ _ => u.any csnNil || d.any csnNil
+  | .dcCSNs m _ => m.any fun e => e.2.any csnNil
+  | .serviceDump xs _ => xs.any fun s => s.gs.isNone
+  | .nodesWithGateways ns _ imp _ => ns.any csnNil || imp.any csnNil
+  | _ => false
+
+/-- The filter proper (what the code computes when it does not panic). -/
+def filterCore (a : Authz) : Resp → Resp
+  | .csns xs => .csns (filterCSNs a xs).1
+  | .indexedCSNs xs _ => let (o, r) := filterCSNs a xs; .indexedCSNs o r
+  | .pqExecute xs _ => let (o, r) := filterCSNs a xs; .pqExecute o r
+  | .topology none fb flag => .topology none fb flag
   | .topology (some (up, down)) fb flag =>
       let (u, r1) := filterCSNs a up
       let (d, r2) := filterCSNs a down
-      if r1 || r2 then some (.topology (some (u, d)) true true) else some (.topology (some (u, d)) fb flag)
-  | .dcCSNs m _ => let (o, r) := dcLoop a m [] false; some (.dcCSNs o r)
+      if r1 || r2 then .topology (some (u, d)) true true else .topology (some (u, d)) fb flag
+  | .dcCSNs m _ => let (o, r) := dcLoop a m [] false; .dcCSNs o r
   | .coordinates xs _ =>
-      let (o, r) := loopRemove (fun c : NodeEnt => allowNode a c.node) xs 0 false; some (.coordinates o r)
+      let (o, r) := loopRemove (fun c : NodeEnt => allowNode a c.node) xs 0 false; .coordinates o r
   | .healthChecks xs _ =>
       let (o, r) := loopRemove (fun c : SvcEnt => allowNode a c.node && allowService a c.svc) xs 0 false
-      some (.healthChecks o r)
-  | .intentions xs _ => let (o, r) := appendLoop (ixnCanRead a) xs [] false; some (.intentions o r)
-  | .ixnMatch es => some (.ixnMatch (ixnMatchLoop a es es))
+      .healthChecks o r
+  | .intentions xs _ => let (o, r) := appendLoop (ixnCanRead a) xs [] false; .intentions o r
+  | .ixnMatch es => .ixnMatch (ixnMatchLoop a es es)
   | .nodeDump d imp flag =>
       let (d', r1) := filterNodeDump a d
       let flag := if r1 then true else flag
       let (i', r2) := filterNodeDump a imp
       let flag := if r2 then true else flag
-      some (.nodeDump d' i' flag)
-  | .serviceDump xs _ =>
-      if xs.any (fun s => s.gs.isNone) then none
-      else let (o, r) := loopRemove (svcInfoKeep a) xs 0 false; some (.serviceDump o r)
+      .nodeDump d' i' flag
+  | .serviceDump xs _ => let (o, r) := loopRemove (svcInfoKeep a) xs 0 false; .serviceDump o r
   | .nodes xs _ =>
-      let (o, r) := loopRemove (fun c : NodeEnt => allowNode a c.node) xs 0 false; some (.nodes o r)
-  | .nodeServices none _ => some (.nodeServices none false)
+      let (o, r) := loopRemove (fun c : NodeEnt => allowNode a c.node) xs 0 false; .nodes o r
+  | .nodeServices none _ => .nodeServices none false
   | .nodeServices (some (n, svcs)) _ =>
-      if !allowNode a n then some (.nodeServices none true)
+      if !allowNode a n then .nodeServices none true
       else
         let (o, r) := rangeDelete (fun e : String × (String × Nat) => allowNode a n && allowService a e.1) svcs svcs false
-        some (.nodeServices (some (n, o)) r)
-  | .nodeServiceList none svcs _ => some (.nodeServiceList none svcs false)
+        .nodeServices (some (n, o)) r
+  | .nodeServiceList none svcs _ => .nodeServiceList none svcs false
   | .nodeServiceList (some n) svcs _ =>
-      if !allowNode a n then some (.nodeServiceList none [] true)
+      if !allowNode a n then .nodeServiceList none [] true
       else
         let (o, r) := loopRemove (fun s : Sub => allowService a s.1) svcs 0 false
-        some (.nodeServiceList (some n) o r)
+        .nodeServiceList (some n) o r
   | .serviceNodes xs _ =>
       let (o, r) := loopRemove (fun c : SvcEnt => allowNode a c.node && allowService a c.svc) xs 0 false
-      some (.serviceNodes o r)
+      .serviceNodes o r
   | .services m _ =>
-      let (o, r) := rangeDelete (fun e : String × Nat => allowService a e.1) m m false; some (.services o r)
+      let (o, r) := rangeDelete (fun e : String × Nat => allowService a e.1) m m false; .services o r
   | .sessions xs _ =>
-      let (o, r) := loopRemove (fun c : NodeEnt => allowSession a c.node) xs 0 false; some (.sessions o r)
+      let (o, r) := loopRemove (fun c : NodeEnt => allowSession a c.node) xs 0 false; .sessions o r
   | .preparedQueries xs _ =>
-      if a.aclWrite then some (.preparedQueries xs false)
-      else let (o, r) := pqLoop a xs [] false; some (.preparedQueries o r)
-  | .preparedQuery q => some (.preparedQuery (redactPQ a q))
-  | .aclList k xs => some (.aclList k (filterAclList a k xs []))
-  | .aclOne k x => some (.aclOne k (filterAclObj a k x))
-  | .serviceList xs _ => let (o, r) := appendLoop (fun s => a.serviceRead s) xs [] false; some (.serviceList o r)
-  | .exportedServiceList m flag => let (o, r) := exportedLoop a m [] flag; some (.exportedServiceList o r)
+      if a.aclWrite then .preparedQueries xs false
+      else let (o, r) := pqLoop a xs [] false; .preparedQueries o r
+  | .preparedQuery q => .preparedQuery (redactPQ a q)
+  | .aclList k xs => .aclList k (filterAclList a k xs [])
+  | .aclOne k x => .aclOne k (filterAclObj a k x)
+  | .serviceList xs _ => let (o, r) := appendLoop (fun s => a.serviceRead s) xs [] false; .serviceList o r
+  | .exportedServiceList m flag => let (o, r) := exportedLoop a m [] flag; .exportedServiceList o r
   | .gatewayServices xs _ =>
-      let (o, r) := appendLoop (fun g : GwSvc => a.serviceRead g.svc) xs [] false; some (.gatewayServices o r)
+      let (o, r) := appendLoop (fun g : GwSvc => a.serviceRead g.svc) xs [] false; .gatewayServices o r
   | .nodesWithGateways ns gws imp flag =>
       let (n', r1) := filterCSNs a ns
       let flag := if r1 then true else flag
@@ -408,9 +420,26 @@ def filterResp (a : Authz) : Resp → Option Resp
       let flag := if r2 then true else flag
       let (i', r3) := filterCSNs a imp
       let flag := if r3 then true else flag
-      some (.nodesWithGateways n' g' i' flag)
-  | .dirEntries xs => (filterEntries (fun e : String × Nat => !a.keyRead e.1) xs).map .dirEntries
-  | .txnResults xs => (filterEntries (txnDrop a) xs).map .txnResults
+      .nodesWithGateways n' g' i' flag
+  -- the two compaction entry points: `compact_terminates` shows the `none` arm is never taken
+  | .dirEntries xs =>
+      match filterEntries (fun e : String × Nat => !a.keyRead e.1) xs with
+      | some o => .dirEntries o
+      | none => .dirEntries xs
+  | .txnResults xs =>
+      match filterEntries (txnDrop a) xs with
+      | some o => .txnResults o
+      | none => .txnResults xs
+
+/-- Would the compaction loop of `FilterEntries` spin forever on this response? (Never: `compact_terminates`.) -/
+def Resp.diverges (a : Authz) : Resp → Bool
+  | .dirEntries xs => (filterEntries (fun e : String × Nat => !a.keyRead e.1) xs).isNone
+  | .txnResults xs => (filterEntries (txnDrop a) xs).isNone
+  | _ => false
+
+/-- The filter as observed: `none` = the Go code panics (or would not terminate). -/
+def filterResp (a : Authz) (r : Resp) : Option Resp :=
+  if r.panics || r.diverges a then none else some (filterCore a r)
 
 /-- The Go type each constructor stands for (as written in the `case` clauses of the switch). -/
 def Resp.goType : Resp → String
